@@ -350,6 +350,10 @@ class Abs(Operator):
 
     def __init__(self, a):
         """Initialise."""
+        if isinstance(a, Abs):
+            # Abs(Abs(x)) was simplified to the existing Abs(x) in __new__;
+            # Python then calls __init__ on that object again: keep its operand
+            return
         Operator.__init__(self, (a,))
 
     def evaluate(self, x, mapping, component, index_values):
